@@ -474,11 +474,13 @@ func (s *Stage) envAction(e world.EnvEvent) func() {
 			s.CancelledT = s.K.Now()
 			s.Cancel()
 		case "setfile":
-			_ = os.WriteFile(e.Path, []byte(e.Text), 0644)
+			_ = os.WriteFile(s.worldPath(e.Path), []byte(e.Text), 0644)
 		case "chmod":
-			_ = os.Chmod(e.Path, os.FileMode(e.Value))
+			_ = os.Chmod(s.worldPath(e.Path), os.FileMode(e.Value))
+			s.W.FaultsFired["perm.flip"]++
 		case "chown":
-			_ = os.Chown(e.Path, e.Value/100000, e.Value%100000)
+			_ = os.Chown(s.worldPath(e.Path), e.Value/100000, e.Value%100000)
+			s.W.FaultsFired["perm.flip"]++
 		default:
 			if s.ExtraEnv != nil {
 				if fn := s.ExtraEnv(e); fn != nil {
@@ -487,6 +489,10 @@ func (s *Stage) envAction(e world.EnvEvent) func() {
 			}
 		}
 	}
+}
+
+func (s *Stage) worldPath(p string) string {
+	return strings.ReplaceAll(p, "@W@", s.W.Dir)
 }
 
 // Close removes the world; leaves the hook installed until the next New.
